@@ -63,3 +63,47 @@ fn vx_witness_stability() {
     }
     println!("explored: {n_states} analysed states, {n_trials} returned trial states, {n_bad} off");
 }
+
+// C07.5 (every trial phase is tried): metastable pure fluids - a supersaturated vapor and a superheated liquid between
+// binodal and spinodal - and the same for the first and the last component of a binary model with the other component
+// absent: stability analysis must find a trial phase with negative tangent-plane distance (the only liquid-like /
+// vapor-like trial there is), so `is_stable` must say no.
+#[test]
+fn vx_witness_stability_coverage() {
+    use feos_core::cubic::{PengRobinson, PengRobinsonParameters};
+    use feos_core::PhaseEquilibrium;
+    let (mut n_ok, mut n_bad) = (0, 0);
+    let fluids = [("propane", 369.8, 41.9e5, 0.15, 44.0962), ("methane", 190.56, 45.99e5, 0.011, 16.04)];
+    for (name, tc, pc, omega, mw) in fluids {
+        // the pure model, and binary models in which the fluid is the first / the second component (the other one absent)
+        let other = (507.6, 30.25e5, 0.3013, 86.177);
+        let models: Vec<(&str, Vec<(f64, f64, f64, f64)>, Vec<f64>)> = vec![
+            ("pure model", vec![(tc, pc, omega, mw)], vec![1.0]),
+            ("first of two components, the second absent", vec![(tc, pc, omega, mw), other], vec![1.0, 0.0]),
+            ("second of two components, the first absent", vec![other, (tc, pc, omega, mw)], vec![0.0, 1.0]),
+        ];
+        let Ok(pp) = PengRobinsonParameters::new_simple(&[tc], &[pc], &[omega], &[mw]) else { continue };
+        let pure = Arc::new(PengRobinson::new(Arc::new(pp)));
+        for tr in [0.7, 0.8, 0.9] {
+            let t = tr * tc * KELVIN;
+            let Ok(vle) = PhaseEquilibrium::pure(&pure, t, None, SolverOptions::default()) else { continue };
+            let p_sat = vle.vapor().pressure(Contributions::Total);
+            for (what, recs, x) in &models {
+                let (tcs, pcs, oms, mws): (Vec<f64>, Vec<f64>, Vec<f64>, Vec<f64>) = (recs.iter().map(|r| r.0).collect(), recs.iter().map(|r| r.1).collect(), recs.iter().map(|r| r.2).collect(), recs.iter().map(|r| r.3).collect());
+                let Ok(params) = PengRobinsonParameters::new_simple(&tcs, &pcs, &oms, &mws) else { continue };
+                let eos = Arc::new(PengRobinson::new(Arc::new(params)));
+                let n = Array1::from_vec(x.clone()) * MOL;
+                for (factor, phase, state_name) in [(1.08, DensityInitialization::Vapor, "supersaturated vapor"), (0.92, DensityInitialization::Liquid, "superheated liquid")] {
+                    let Ok(s) = State::new_npt(&eos, t, factor * p_sat, &n, phase) else { continue };
+                    let Ok(stable) = s.is_stable(SolverOptions::default()) else { continue };
+                    n_ok += 1;
+                    if stable {
+                        n_bad += 1;
+                        if n_bad <= 8 { println!("WITNESS is_stable = true for a metastable state: Peng-Robinson {name} ({what}), {state_name} at T = {t}, p = {} = {factor} p_sat (density {})", factor * p_sat, s.density); }
+                    }
+                }
+            }
+        }
+    }
+    println!("explored: {n_ok} metastable states, {n_bad} reported stable");
+}
